@@ -8,6 +8,7 @@ import MpireModel.Drive.Shutdown
 import MpireModel.Drive.GracefulStop
 import MpireModel.Drive.ParamFlow
 import MpireModel.Drive.Insights
+import MpireModel.Drive.FirstFailure
 /- One line in, one line out. -/
 namespace Mpire.Drive
 
@@ -46,6 +47,7 @@ def handle (line : String) : String :=
       | "gstop"   => handleGStop fs
       | "pflow"   => handlePFlow fs
       | "insacc"  => handleInsAcc fs
+      | "ffail"   => handleFFail fs
       | _ => none
     r.getD "bad-op"
 
